@@ -70,7 +70,7 @@ func zzXRD() *v1.CompositeResourceDefinition {
 // XRD's finalizer goes only after the CRD is gone or was never ours.
 //
 //gosym:harness
-//gosym:cover crd-deleted waiting-for-instances finalizer-removed fault-hit foreign-crd
+//gosym:cover crd-deleted waiting-for-instances finalizer-removed fault-hit foreign-crd terminating-crd
 func HarnessC08XRD() {
 	s := kube.New()
 	s.Register(&v1.CompositeResourceDefinition{}, &v1.CompositeResourceDefinitionList{}, "apiextensions.crossplane.io", "CompositeResourceDefinition")
@@ -82,7 +82,7 @@ func HarnessC08XRD() {
 	d.DeletionTimestamp = &now
 	s.Put(d)
 
-	crdState := zz.Choose("crd.state", 3) // absent, ours, controlled by another owner
+	crdState := zz.Choose("crd.state", 4) // absent, ours, controlled by another owner, ours and already terminating
 	foreign := zz.Str("foreign.uid")
 	zz.Assume(foreign != zzXRDUID)
 	zz.Assume(foreign != "")
@@ -94,6 +94,13 @@ func HarnessC08XRD() {
 			zz.Cover("foreign-crd")
 		}
 		crd.OwnerReferences = []metav1.OwnerReference{{APIVersion: "apiextensions.crossplane.io/v1", Kind: "CompositeResourceDefinition", Name: zzXRDName, UID: types.UID(uid), Controller: ptr.To(true)}}
+		if crdState == 3 {
+			// deleted by the garbage collector or by hand; the API server keeps
+			// it until its instances are gone
+			crd.Finalizers = []string{"customresourcecleanup.apiextensions.k8s.io"}
+			crd.DeletionTimestamp = &now
+			zz.Cover("terminating-crd")
+		}
 		s.Put(crd)
 	}
 	nInst := zz.Choose("instances", 3)
@@ -110,7 +117,7 @@ func HarnessC08XRD() {
 
 	eng := &zzEngine{s: s}
 	crdExisted := crdState != 0
-	crdWasOurs := crdState == 1
+	crdWasOurs := crdState == 1 || crdState == 3
 	s.OnMutate = func() {
 		// the moment the CRD disappears
 		if crdExisted && crdWasOurs && !s.Exists("apiextensions.k8s.io", "CustomResourceDefinition", "", zzXRDName) {
